@@ -195,7 +195,7 @@ def body_rewrites(src, lo, hi, edits, subst, stats, opts):
             if mac in ("debug_assert", "assert"):
                 (a, b) = args[0]
                 cond = text[toks[a].start:toks[b - 1].end]
-                edits.add(t.start, toks[cl].end, f"{{ let __a: bool = ({cond}); assert(__a); }}", "R2",
+                edits.add(t.start, toks[cl].end, f"let _ = {{ let __a: bool = ({cond}); assert(__a); }}", "R2",
                           f"{mac}! -> static assertion")
                 stats["R2"] = stats.get("R2", 0) + 1
                 i = cl + 1
@@ -206,7 +206,7 @@ def body_rewrites(src, lo, hi, edits, subst, stats, opts):
                 x = text[toks[a].start:toks[b - 1].end]
                 y = text[toks[c].start:toks[d - 1].end]
                 opx = "==" if mac.endswith("_eq") else "!="
-                edits.add(t.start, toks[cl].end, f"{{ let __a: bool = ({x}) {opx} ({y}); assert(__a); }}", "R2",
+                edits.add(t.start, toks[cl].end, f"let _ = {{ let __a: bool = ({x}) {opx} ({y}); assert(__a); }}", "R2",
                           f"{mac}! -> static assertion")
                 stats["R2"] = stats.get("R2", 0) + 1
                 i = cl + 1
@@ -305,6 +305,56 @@ def rewrite_loop_values(src, lo, hi, edits, stats, types=None):
             edits.add(val_hi, toks[b].end if semi else val_hi, "; break; }", "R9", "")
         edits.add(toks[bc].end, toks[bc].end, " " + name + " }", "R9", "")
         stats["R9"] = stats.get("R9", 0) + 1
+
+
+def rewrite_for_loops(src, lo, hi, edits, stats):
+    """R4: `for PAT in EXPR { BODY }` over a non-range iterator =>
+           `{ let mut __itK = EXPR; loop <spec> { match __itK.next() { Some(PAT) => { BODY } None => break, } } }`
+       (the language definition of `for`).  Must be called AFTER the loop specs have been spliced so that they end up
+       between `loop` and the new body."""
+    toks = src.toks
+    k = 0
+    for L in src.loops_in(lo, hi):
+        if L["kind"] != "for":
+            continue
+        kw, bo, bc = L["kw"], L["body_open"], L["body_close"]
+        # find `in` at depth 0
+        d = 0
+        j = kw + 1
+        pos_in = None
+        while j < bo:
+            x = toks[j]
+            if x.text in "([{":
+                d += 1
+            elif x.text in ")]}":
+                d -= 1
+            elif x.kind == "ident" and x.text == "in" and d == 0:
+                pos_in = j
+                break
+            j += 1
+        if pos_in is None:
+            continue
+        # range?  `a..b` at depth 0 in EXPR
+        is_range = False
+        d = 0
+        for j in range(pos_in + 1, bo - 0):
+            x = toks[j]
+            if x.text in "([{":
+                d += 1
+            elif x.text in ")]}":
+                d -= 1
+            elif x.text == "." and d == 0 and toks[j + 1].text == "." and toks[j + 1].start == x.end:
+                is_range = True
+        if is_range:
+            continue
+        pat = src.text[toks[kw + 1].start:toks[pos_in - 1].end]
+        name = f"__it{k}"
+        k += 1
+        edits.add(toks[kw].start, toks[pos_in].end, "{ let mut " + name + " =", "R4", f"for {pat} in .. => loop/match next()")
+        edits.add(toks[bo - 1].end, toks[bo - 1].end, "; loop ", "R4", "")
+        edits.add(toks[bo].start, toks[bo].start, "{ match " + name + ".next() { Some(" + pat + ") => ", "R4", "")
+        edits.add(toks[bc].end, toks[bc].end, " None => break, } } }", "R4", "")
+        stats["R4"] = stats.get("R4", 0) + 1
 
 
 def parse_block(body):
@@ -480,6 +530,7 @@ def gen_fn(repo, d, body, report):
             edits.add(toks[a].start, toks[b].end, sub["args"][1], o.get("rule", "REWRITE"),
                       f"`{sub['args'][0]}` => `{sub['args'][1]}`")
             stats[o.get("rule", "REWRITE")] = stats.get(o.get("rule", "REWRITE"), 0) + 1
+    rewrite_for_loops(src, f["body_open"] + 1, f["body_close"], edits, stats)
     lo_off, hi_off = toks[f["start"]].start, toks[f["body_close"]].end
     if d.get("attr"):
         edits.add(lo_off, lo_off, d["attr"] + "\n", "SPEC", "verifier attribute")
@@ -693,6 +744,7 @@ def gen_fragment(repo, d, body, report):
             a, b = src.find_seq(a0, b1 + 1, sub["args"][0], int(o.get("nth", 1)))
             edits.add(toks[a].start, toks[b].end, sub["args"][1], o.get("rule", "REWRITE"),
                       f"`{sub['args'][0]}` => `{sub['args'][1]}`")
+    rewrite_for_loops(src, a0, b1 + 1, edits, stats)
     lo_off, hi_off = toks[a0].start, toks[b1].end
     text, segs = edits.apply(src.text, lo_off, hi_off)
     head = f"{d.get('qual', '')} fn {d['name']}({d['sig'].split('->')[0].strip()})"
